@@ -111,7 +111,7 @@ func genBurst(r *rand.Rand, l model.Labels, tag string) []scen.PostSpec {
 // worker.recv yield point with random sleeps, so that different workers finish out of order.
 func TestVirtualTimeBursts(t *testing.T) {
 	run := vf.Cur()
-	sub := run.Sub("virtual-time-bursts", "real app in virtual time, group_wait 1h (nothing flushes), routes putting one alert into 1-3 groups; per label set bursts of 2-5 versions (refresh/resolve/re-fire, unique annotation v=<set>/<seq>) submitted 1 ms apart through POST /api/v2/alerts while ingestion workers are held at the worker.recv yield point for random 0-6 ms (even cases) or until the next multiple of 4 ms, so that the workers holding the versions of one burst resume at the same instant and insert concurrently (odd cases); after each burst has been processed GET /alerts/groups must show, in every group of the label set, the last submitted version (or nothing if that version is resolved); non-trivial = at least one burst in which a worker was held; distinct by (seed)", 30)
+	sub := run.Sub("virtual-time-bursts", "real app in virtual time, group_wait 1h (nothing flushes), routes putting one alert into 1-3 groups; per label set bursts of 2-5 versions (refresh/resolve/re-fire, unique annotation v=<set>/<seq>) submitted 1 ms apart through POST /api/v2/alerts (every fourth by a client that hangs up right after sending: request context already cancelled) while ingestion workers are held at the worker.recv yield point for random 0-6 ms (even cases) or until the next multiple of 4 ms, so that the workers holding the versions of one burst resume at the same instant and insert concurrently (odd cases); after each burst has been processed GET /alerts/groups must show, in every group of the label set, the last submitted version (or nothing if that version is resolved); non-trivial = at least one burst in which a worker was held; distinct by (seed)", 30)
 	n := run.N(300, 15000)
 	vf.Parallel(t, n, 16, func(t *testing.T, i int) {
 		r := sub.Rand(i)
@@ -161,7 +161,11 @@ func TestVirtualTimeBursts(t *testing.T) {
 						pa := sim.PostableAlert{Labels: p.Labels, Annotations: p.Ann}
 						e := now.Add(*p.EndOff)
 						pa.EndsAt = &e
-						if c, b := in.PostAlerts(pa); c != 200 {
+						// every fourth submission comes from a client that hangs up right after sending it
+						in.GoneClient.Store(r.Intn(4) == 0)
+						c, b := in.PostAlerts(pa)
+						in.GoneClient.Store(false)
+						if c != 200 {
 							t.Fatalf("post: %d %s", c, b)
 						}
 						last[l.Key()] = version{v: p.Ann["v"], firing: *p.EndOff > 0}
